@@ -108,7 +108,7 @@ def model_program(name, p):
     return {"name": name, "init": init, "threads": [[model_op(o) for o in ops] for ops in p["threads"]]}
 
 
-def run_model(rd, tag, mprogs, shared, workers=8, timeout=1500, emit=True, simulate=None, view=False):
+def run_model(rd, tag, mprogs, shared, workers=8, timeout=1500, emit=True, simulate=None, view=False, one_in=1):
     sd = os.path.join(rd, "scan_" + tag)
     os.makedirs(sd, exist_ok=True)
     shutil.copy(os.path.join(v.SPEC, "ScanConc.tla"), sd)
@@ -118,9 +118,9 @@ def run_model(rd, tag, mprogs, shared, workers=8, timeout=1500, emit=True, simul
                  "EXTENDS ScanConc\nProgsLit == %s\nNoHist == <<prog, cur, slot, gens, gh, mem, cnt, pc, opi, loc, flags>>\n====\n"
                  % (mod, len(mprogs), sc.tla(mprogs)))
     with open(os.path.join(sd, mod + ".cfg"), "w") as fh:
-        fh.write("CONSTANTS\n  Programs <- ProgsLit\n  Now = %d  U = %d\n  Overhead = 168  KLen = 2\n  SharedBuckets = %s\n"
+        fh.write("CONSTANTS\n  Programs <- ProgsLit\n  Now = %d  U = %d\n  Overhead = 168  KLen = 2\n  EmitOneIn = %d\n  SharedBuckets = %s\n"
                  "SPECIFICATION Spec\nCHECK_DEADLOCK FALSE\n%sINVARIANTS NoFlags QuiescentExact IndexAgree NoDeadlock%s\n"
-                 % (sc.NOWM, sc.UM, "TRUE" if shared else "FALSE", "VIEW NoHist\n" if view else "",
+                 % (sc.NOWM, sc.UM, one_in, "TRUE" if shared else "FALSE", "VIEW NoHist\n" if view else "",
                     " EmitBehaviour" if emit else ""))
     r = v.run_tlc(mod, mod + ".cfg", rd, workers=workers, timeout=timeout, coverage=False, xmx="12g",
                   simulate=simulate, spec_dir=sd)
@@ -234,7 +234,7 @@ def part(prop, tier, seed, rd, fxv, viol, st, inv, collect, nsample=2500):
         info["triple_states"] = r3.distinct
         info["design_violation"] = info["design_violation"] or r3.violation
     # behaviours for the replay: one shared guard - the schedules every instance admits, whichever keys share a bucket
-    r, beh = run_model(rd, "shared", mprogs, shared=True, workers=8, timeout=1500)
+    r, beh = run_model(rd, "shared", mprogs, shared=True, workers=8, timeout=1500, one_in=16 if tier == "quick" else 2)
     if r.timeout or (r.error and not r.violation):
         raise v.ToolError("ScanConc model checking failed: %s %s" % (r.error, r.out[-600:]))
     info.update({"model_states": r.distinct, "model_behaviours": len(beh), "model_wall_s": round(r.wall + r0.wall, 1)})
